@@ -152,6 +152,7 @@ fn main() {
         "C07" => c07,
         "C08" => c08,
         "C09" => c09,
+        "C10" => c10,
         "C12" => c12,
         "C13" => c13,
         "C14" => c14,
